@@ -179,8 +179,12 @@ func walk(m *meta.Module) {
 					if l.HasDefault() {
 						_ = l.DefaultValue()
 					}
-					if t.Format().Single().String() == "leafref" {
-						_ = t.Resolve()
+					// what a leafref leads to is a type: following it ends
+					for rt, hops := t, 0; rt.Format().Single().String() == "leafref"; hops++ {
+						if hops > 1000 {
+							panic("a leafref leads back to itself: following Type().Resolve() does not end")
+						}
+						rt = rt.Resolve()
 					}
 					if len(t.Base()) > 0 {
 						// a search of everything derived from the bases ends
@@ -464,6 +468,18 @@ func C14(c *core.Ctx) {
 	add(c14case{Desc: "features declared only in an included submodule", Files: map[string]string{
 		"x":     "module x { namespace \"urn:x\"; prefix x; include x-sub; revision 2020-01-01;\n leaf a { if-feature sf; type string; } leaf b { if-feature \"not sf\"; type string; }\n}",
 		"x-sub": "submodule x-sub { belongs-to x { prefix x; } feature sf; leaf s { if-feature sf; type string; } }"}, Main: "x"})
+	// (d3) submodules with imports of their own
+	add(c14case{Desc: "two submodules import the same module under a prefix of their own", Files: map[string]string{
+		"x":   "module x { namespace \"urn:x\"; prefix x; include s1; include s2; import lib { prefix own; } revision 2020-01-01;\n leaf m { type own:t; } }",
+		"s1":  "submodule s1 { belongs-to x { prefix x; } import lib { prefix l; } leaf a { type l:t; } container c1 { uses l:g; } }",
+		"s2":  "submodule s2 { belongs-to x { prefix x; } import lib { prefix ll; } leaf b { type ll:t; } identity i2 { base ll:b; } }",
+		"lib": "module lib { namespace \"urn:lib\"; prefix lib; revision 2020-01-01; typedef t { type string; } grouping g { leaf gl { type t; } } identity b; }"}, Main: "x"})
+	add(c14case{Desc: "only the submodules import, each another module", Files: map[string]string{
+		"x":  "module x { namespace \"urn:x\"; prefix x; include s1; include s2; revision 2020-01-01; }",
+		"s1": "submodule s1 { belongs-to x { prefix x; } import la { prefix p; } leaf a { type p:t; } }",
+		"s2": "submodule s2 { belongs-to x { prefix x; } import lb { prefix p; } leaf b { type p:t; } }",
+		"la": "module la { namespace \"urn:la\"; prefix la; revision 2020-01-01; typedef t { type string; } }",
+		"lb": "module lb { namespace \"urn:lb\"; prefix lb; revision 2020-01-01; typedef t { type int32; } }"}, Main: "x"})
 	// (e) import / include graphs
 	type graph struct {
 		desc  string
